@@ -36,9 +36,9 @@ Extra(k) ==
     [] k = "Scalar" -> <<JI(5), JF("2.5"), JB(FALSE), JO(<<"x">>, <<JI(1)>>), JL(<<JS("q"), JNull>>)>>
 Menu(k) == <<JAbsent, JNull, Good(k)>> \o Extra(k)
 \* seeds that are also wrapped beyond depth 1 when DeepAll = FALSE: the null / right / wrong-kind String in both
-\* nullabilities, the nullable enum with an invalid value (rendered null by both walks), the Int fraction
+\* nullabilities, the enum with an invalid / inaccessible value (rendered null by both walks), the Int fraction
 DeepSeed(k, n, m) == \/ k = "String" /\ m \in 1..4
-                     \/ k = "Enum" /\ m = 4
+                     \/ k = "Enum" /\ m \in 4..5
                      \/ k = "Int" /\ ~n /\ m = 4
 
 RECURSIVE OkVal(_)
